@@ -216,17 +216,22 @@ func ruleCoreRecover() check.Rule {
 					if s := fieldSelOf(info, call.Fun, rv); s != nil && s.Sel.Name == "subscribe" {
 						subscribeCall = call
 					}
-					callee := model.Callee(info, call)
-					if _, inCatch := position(fd, call); inCatch {
-						if name, ok := m.Obj.ObserverMethods[callee]; ok && strings.HasPrefix(name, "Error") {
+					// the catch handler: the literal itself, and what the helpers it calls do
+					if isTry(call) && len(call.Args) >= 2 {
+						handler := call.Args[1]
+						if pos := findCallTransitive(m, p, handler, func(q *packages.Package, c2 *ast.CallExpr) bool {
+							name, ok := m.Obj.ObserverMethods[model.Callee(q.TypesInfo, c2)]
+							return ok && strings.HasPrefix(name, "Error")
+						}, 3); pos != token.NoPos {
 							handlerEmits = true
-							emitPos = call.Pos()
+							emitPos = pos
 						}
-						if name, ok := m.Obj.SubscriptionMethods[callee]; ok && name == "Unsubscribe" {
+						if pos := findCallTransitive(m, p, handler, func(q *packages.Package, c2 *ast.CallExpr) bool {
+							name, ok := m.Obj.SubscriptionMethods[model.Callee(q.TypesInfo, c2)]
+							return ok && name == "Unsubscribe"
+						}, 3); pos != token.NoPos {
 							handlerUnsubs = true
-							if unsubPos == token.NoPos {
-								unsubPos = call.Pos()
-							}
+							unsubPos = pos
 						}
 					}
 					return true
@@ -283,11 +288,16 @@ func ruleCoreRecover() check.Rule {
 					if s := fieldSelOf(info, call.Fun, rv); s != nil && s.Sel.Name == t.field {
 						cb = call
 					}
-					if _, inCatch := position(fd, call); inCatch {
-						if id, ok := ast.Unparen(call.Fun).(*ast.Ident); ok && id.Name == "OnUnhandledError" {
-							routes = true
-						}
-						if sel, ok := ast.Unparen(call.Fun).(*ast.SelectorExpr); ok && sel.Sel.Name == "tryError" {
+					if isTry(call) && len(call.Args) >= 2 {
+						if findCallTransitive(m, p, call.Args[1], func(q *packages.Package, c2 *ast.CallExpr) bool {
+							if id, ok := ast.Unparen(c2.Fun).(*ast.Ident); ok && id.Name == "OnUnhandledError" {
+								return true
+							}
+							if sel, ok := ast.Unparen(c2.Fun).(*ast.SelectorExpr); ok && sel.Sel.Name == "tryError" {
+								return true
+							}
+							return false
+						}, 3) != token.NoPos {
 							routes = true
 						}
 					}
@@ -514,8 +524,32 @@ func errorHandled(m *model.Model, sc *model.SC, call *ast.CallExpr, errIdx, nres
 		if l, ok := n.(*ast.FuncLit); ok && ast.Node(l) != fn {
 			return false
 		}
-		ifs, ok := n.(*ast.IfStmt)
-		if !ok || ifs.Pos() < call.Pos() {
+		// an if statement, or one case of a tagless switch (its clauses exclude each other like an if / else-if chain)
+		type ifLike struct {
+			Cond ast.Expr
+			Body *ast.BlockStmt
+			Else ast.Node
+		}
+		var ifs *ifLike
+		switch y := n.(type) {
+		case *ast.IfStmt:
+			ifs = &ifLike{y.Cond, y.Body, nil}
+			if y.Else != nil {
+				ifs.Else = y.Else
+			}
+		case *ast.CaseClause:
+			if sw, ok := m.Parent(p, m.Parent(p, y)).(*ast.SwitchStmt); ok && sw.Tag == nil && len(y.List) == 1 {
+				// the other clauses play the part of the else branch
+				var rest []ast.Stmt
+				for _, cl := range sw.Body.List {
+					if cc, ok := cl.(*ast.CaseClause); ok && cc != y {
+						rest = append(rest, cc.Body...)
+					}
+				}
+				ifs = &ifLike{y.List[0], &ast.BlockStmt{Lbrace: y.Colon, List: y.Body, Rbrace: y.End()}, &ast.BlockStmt{Lbrace: sw.Body.Lbrace, List: rest, Rbrace: sw.Body.Rbrace}}
+			}
+		}
+		if ifs == nil || ifs.Cond.Pos() < call.Pos() {
 			return true
 		}
 		be, ok := ast.Unparen(ifs.Cond).(*ast.BinaryExpr)
